@@ -1,10 +1,19 @@
 #!/bin/sh
-# tools/seeded_matrix.sh: run the quick check of every property against its seeded change (default quick budget)
+# tools/seeded_matrix.sh [name...]: run the quick check of every property against its seeded changes (default quick budget).
+# Each change is applied to a scratch worktree of /repo's HEAD (outside /repo and /verif, removed afterwards): /repo itself
+# is not touched, so the matrix can run next to other checks.
 cd "$(dirname "$0")/.."
-for d in seeded/*/; do
-  name=$(basename "$d"); id=${name%%-*}
-  git -C /repo apply "$(readlink -f "$d/patch.diff")" || { echo "$name patch does not apply"; continue; }
-  out=$(VERIF_SCRATCH_EVIDENCE=/tmp/supvsim-scratch-evidence timeout 1500 ./check "$id" quick 2>&1 | grep "^VIOLATION" | head -1)
-  git -C /repo checkout -- .
-  echo "$name ${out:-MISSED}"
+names="$*"
+[ -n "$names" ] || names=$(ls seeded)
+for name in $names; do
+  d=seeded/$name; id=${name%%-*}
+  wt=/tmp/supvsim-matrix-$name
+  git -C /repo worktree add --detach "$wt" HEAD >/dev/null 2>&1 || { echo "$name worktree failed"; continue; }
+  if git -C "$wt" apply "$(readlink -f "$d/patch.diff")"; then
+    out=$(SUPVSIM_REPO="$wt" VERIF_SEED=${VERIF_SEED:-1} VERIF_SCRATCH_EVIDENCE=/tmp/supvsim-scratch-evidence timeout 1500 ./check "$id" quick 2>&1 | grep "^VIOLATION\|^violation" | cut -c1-260 | tr '\n' ' ')
+    echo "$name ${out:-MISSED}"
+  else
+    echo "$name patch does not apply"
+  fi
+  git -C /repo worktree remove --force "$wt"
 done
